@@ -4,88 +4,176 @@ import MpfVerif.Lemmas.Switch
 
 Property theorems about `Model/Switch.lean` (the switch controller's state for one switch; switches are independent
 in the controller, the driver runs one instance per switch), the model `harness/corr/C03.py` runs against the real
-`SwitchController`.  All statements are over every op sequence: raw/logical reports, handler registration and removal,
-`is_active`-queries, time steps and wake-ups (= every timeline, every coincidence between changes and deadlines).
-Not covered by theorems: switch events / ignore window of `devices/switch.py` (harness oracle only) and callbacks that
-themselves add or remove switch handlers.
+`SwitchController`.  All statements are over every op sequence — raw/logical reports, resyncs, handler registration and
+removal, `is_active`-queries, mute/unmute, monitors, time steps and wake-ups (= every timeline, every coincidence between
+changes and deadlines) — and over every assignment `P` of behaviours to callbacks: a callback may register and remove
+handlers of its own switch (itself, a peer, one that is later in the same walk or in the same deadline bucket, for either
+state, timed or untimed) while the change or the expired bucket is being dispatched.
+Not covered: callbacks that report a switch change themselves (re-entrant `process_switch`) or act on another switch.
 -/
 namespace MpfVerif.C03
 open MpfVerif.Switch
 
-/-- the last report in an op sequence -/
-def lastReport : List Op → Option (Bool × Bool)
+/-- the logical state of the last report of any kind (raw/logical report, resync, poll) in an op sequence -/
+def lastReported (invert : Bool) : List Op → Option Bool
   | [] => none
-  | .report l v :: r => (lastReport r).orElse (fun _ => some (l, v))
-  | _ :: r => lastReport r
+  | op :: r => (lastReported invert r).orElse (fun _ => reported invert op)
 
-/-- **state_is_last_report** (with `nc_inversion`).  After any op sequence the logical state is the logical value of
-the last report — the reported value itself for a logical report, the reported value inverted on an NC switch for a raw
-report (`logicalOf`) — or the initial state if nothing was reported; `invert` never changes; and if the raw state was
-the inverse image of the logical one it still is (`hw = state xor invert`), i.e. `hw_state` is the last raw value. -/
-theorem state_is_last_report (ops : List Op) : ∀ (s : Sw) (r : Sw × List Obs), Inv s → run s ops = some r →
-    r.1.invert = s.invert ∧
-    r.1.state = (match lastReport ops with | none => s.state | some (l, v) => logicalOf s.invert l v) ∧
-    (s.hw = (s.state != s.invert) → r.1.hw = (r.1.state != r.1.invert)) := by
+/-- **state_is_last_report** (with `nc_inversion`).  After any op sequence — whatever the callbacks do — the logical state
+is the logical value of the last report: the reported value itself for a logical report, the reported value inverted on an
+NC switch for a raw report, a resync or a poll (`reported`), or the initial state if nothing was reported; `invert` never
+changes; and, polls aside (they overwrite the state silently), if the raw state was the inverse image of the logical one it
+still is (`hw = state xor invert`), i.e. `hw_state` is the last raw value. -/
+theorem state_is_last_report (P : Prog) (ops : List Op) : ∀ (s : Sw) (r : Sw × List Obs), run P s ops = some r →
+    r.1.invert = s.invert ∧ r.1.state = (lastReported s.invert ops).getD s.state ∧
+    (NoPoll ops → s.hw = (s.state != s.invert) → r.1.hw = (r.1.state != r.1.invert)) := by
   induction ops with
-  | nil => intro s r _ h; simp [run] at h; subst h; simp [lastReport]
+  | nil => intro s r h; simp [run] at h; subst h; simp [lastReported]
   | cons op ops ih =>
-    intro s r i h
+    intro s r h
     obtain ⟨r1, r2, h1, h2, rfl⟩ := run_cons h
-    obtain ⟨a1, a2, a3⟩ := ih r1.1 r2 (step_inv s op r1 i h1) h2
-    obtain ⟨b1, b2, b3⟩ := step_core s op r1 h1
+    obtain ⟨a1, a2, a3⟩ := ih r1.1 r2 h2
+    obtain ⟨b1, b2, b3, _⟩ := step_core P s op r1 h1
     refine ⟨by rw [a1, b1], ?_, ?_⟩
     · show r2.1.state = _
-      rw [a2]
-      cases op with
-      | report l v =>
-        simp only [lastReport]
-        cases hl : lastReport ops with
-        | none => simp [Option.orElse]; exact b2.1
-        | some lv => obtain ⟨l', v'⟩ := lv; simp [Option.orElse, b1]
-      | add _ _ _ => simp only [lastReport]; cases hl : lastReport ops <;> simp [b1, b2.1]
-      | remove _ _ _ => simp only [lastReport]; cases hl : lastReport ops <;> simp [b1, b2.1]
-      | to _ => simp only [lastReport]; cases hl : lastReport ops <;> simp [b1, b2.1]
-      | wake => simp only [lastReport]; cases hl : lastReport ops <;> simp [b1, b2.1]
-      | query _ _ => simp only [lastReport]; cases hl : lastReport ops <;> simp [b1, b2.1]
-    · intro hh
-      apply a3
-      by_cases c : r1.1.state = s.state
-      · rw [b3 c, c, b1]; exact hh
-      · cases op with
-        | report l v => exact b2.2 c
-        | add _ _ _ => exact absurd b2.1 c
-        | remove _ _ _ => exact absurd b2.1 c
-        | to _ => exact absurd b2.1 c
-        | wake => exact absurd b2.1 c
-        | query _ _ => exact absurd b2.1 c
+      rw [a2, b1, b2]
+      simp only [lastReported]
+      cases lastReported s.invert ops <;> simp [Option.orElse]
+    · intro hp hh
+      exact a3 (fun o ho => hp o (by simp [ho])) (b3 (hp op (by simp)) hh)
 
 /-- **duplicate_silent.**  A report whose logical value equals the current state changes nothing at all (no field of
-the controller state) and calls nothing. -/
-theorem duplicate_silent (s : Sw) (l v : Bool) (h : logicalOf s.invert l v = s.state) :
-    step s (.report l v) = some (s, []) := step_report_dup s l v h
+the controller state), calls no handler and no monitor. -/
+theorem duplicate_silent (P : Prog) (s : Sw) (l v : Bool) (h : logicalOf s.invert l v = s.state) :
+    step P s (.report l v) = some (s, []) := by
+  simp [step, reportL_dup P s _ h]
 
-/-- **untimed_once_per_change.**  A report that really changes the switch into state `st` calls exactly the untimed
-handlers registered for `st`, once each, in registration order, at that instant — and nothing else (timed handlers only
-get a deadline). -/
-theorem untimed_once_per_change (s : Sw) (l v : Bool) (r : Sw × List Obs)
-    (hne : logicalOf s.invert l v ≠ s.state) (h : step s (.report l v) = some r) :
-    r.2 = ((s.reg (logicalOf s.invert l v)).filter (fun x => x.ms = 0)).map
-            (fun x => Obs.call x.cb (logicalOf s.invert l v) 0 s.now) := by
-  rw [step_report_change s l v hne] at h
+/-- all untimed registrations for `st`, as calls at instant `t` -/
+def untimedCalls (s : Sw) (st : Bool) (t : Nat) : List Obs :=
+  ((s.reg st).filter (fun x => x.ms = 0)).map (fun x => Obs.call x.cb st 0 t)
+
+/-- **untimed_once_per_change.**  A report that really changes an unmuted switch into state `st` produces `calls ++ monitor`
+where `calls` is a sub-sequence of the untimed handlers that were registered for `st` when the change happened — each at
+most once, in registration order, at that instant, and nothing else (timed handlers only get a deadline; whatever a callback
+registers during the walk is not called in this round) — and it is *exactly* that list, once each, unless a callback that
+runs removes a handler of this state (the removed one is then skipped, see `removed_in_callback_never_fires`). -/
+theorem untimed_once_per_change (P : Prog) (s : Sw) (l v : Bool) (r : Sw × List Obs)
+    (hne : logicalOf s.invert l v ≠ s.state) (hm : s.mutes = []) (h : step P s (.report l v) = some r) :
+    ∃ calls, r.2 = calls ++ (if s.mon then [Obs.monitor (logicalOf s.invert l v)] else []) ∧
+      List.Sublist calls (untimedCalls s (logicalOf s.invert l v) s.now) ∧
+      ((∀ x ∈ s.reg (logicalOf s.invert l v), x.ms = 0 → cancOf (logicalOf s.invert l v) (P x.cb) = []) →
+        calls = untimedCalls s (logicalOf s.invert l v) s.now) := by
+  simp only [step] at h
   injection h with h; subst h
-  rw [callHandlers_obs]
-  have : (changed s (logicalOf s.invert l v)).reg (logicalOf s.invert l v) = s.reg (logicalOf s.invert l v) := by
-    cases logicalOf s.invert l v <;> rfl
-  rw [this]
+  refine ⟨(callHandlers P (logicalOf s.invert l v) s.now [] ((changed s (logicalOf s.invert l v)).reg (logicalOf s.invert l v))
+    (changed s (logicalOf s.invert l v))).2, ?_, ?_, ?_⟩
+  · simp [reportL, hne, changed, hm]
+  · have := callHandlers_sublist P (logicalOf s.invert l v) s.now
+      ((changed s (logicalOf s.invert l v)).reg (logicalOf s.invert l v)) [] (changed s (logicalOf s.invert l v))
+    rw [changed_reg] at this
+    exact this
+  · intro hc
+    rw [changed_reg] at *
+    exact callHandlers_obs P _ _ _ _ hc
 
-/-- **wake_is_min_deadline.**  In every state reachable from a fresh switch, the single scheduled wake-up is exactly
-the minimum of the pending deadlines (none iff none is pending) and it is not overdue; hence every pending deadline `k`
-satisfies `now ≤ wake ≤ k`: no deadline can be slept through. -/
-theorem wake_is_min_deadline (invert state hw : Bool) (ops : List Op) (r : Sw × List Obs)
-    (h : run { invert := invert, state := state, hw := hw } ops = some r) :
+/-- **added_in_walk_not_called_this_round.**  A handler that was not registered for the new state when the change happened
+is not called in this round, even if a callback of this round registers it (the walk runs over a copy of the list). -/
+theorem added_in_walk_not_called_this_round (P : Prog) (s : Sw) (l v : Bool) (r : Sw × List Obs) (cb : Nat)
+    (hnew : (⟨cb, 0⟩ : Reg) ∉ s.reg (logicalOf s.invert l v)) (h : step P s (.report l v) = some r) :
+    ∀ t, Obs.call cb (logicalOf s.invert l v) 0 t ∉ r.2 := by
+  simp only [step] at h
+  injection h with h; subst h
+  intro t ht
+  unfold reportL at ht
+  split at ht
+  · simp at ht
+  · simp only at ht
+    rcases List.mem_append.mp ht with d | d
+    · split at d
+      · have sub := callHandlers_sublist P (logicalOf s.invert l v) s.now
+          ((changed s (logicalOf s.invert l v)).reg (logicalOf s.invert l v)) [] (changed s (logicalOf s.invert l v))
+        rw [changed_reg] at sub d
+        obtain ⟨x, hx, e⟩ := List.mem_map.mp (sub.subset d)
+        injection e with e1 e2 e3 e4
+        apply hnew
+        have : x = ⟨cb, 0⟩ := by
+          have := (List.mem_filter.mp hx).2
+          cases x; simp_all
+        exact this ▸ (List.mem_filter.mp hx).1
+      · simp at d
+    · split at d <;> simp at d
+
+/-- **muted_change_calls_nothing.**  A change of a muted switch updates the state (and cancels the pending deadlines) but
+calls no handler and schedules none; a monitor is still told, once. -/
+theorem muted_change_calls_nothing (P : Prog) (s : Sw) (l v : Bool) (r : Sw × List Obs)
+    (hne : logicalOf s.invert l v ≠ s.state) (hm : s.mutes ≠ []) (h : step P s (.report l v) = some r) :
+    r.2 = (if s.mon then [Obs.monitor (logicalOf s.invert l v)] else []) ∧ r.1.timed = [] ∧ r.1.wake = none ∧
+    r.1.state = logicalOf s.invert l v := by
+  simp only [step] at h
+  injection h with h; subst h
+  simp [reportL, hne, changed, hm]
+
+/-- **monitor_once_per_change.**  A monitor hears of every real change exactly once, with the new logical state, after the
+handlers — muted or not; (by `duplicate_silent`) never of a duplicate. -/
+theorem monitor_once_per_change (P : Prog) (s : Sw) (l v : Bool) (r : Sw × List Obs)
+    (hne : logicalOf s.invert l v ≠ s.state) (h : step P s (.report l v) = some r) :
+    r.2.filter (fun o => match o with | .monitor _ => true | _ => false)
+      = (if s.mon then [Obs.monitor (logicalOf s.invert l v)] else []) := by
+  simp only [step] at h
+  injection h with h; subst h
+  unfold reportL
+  simp only [hne, if_false, List.filter_append]
+  have h1 : ∀ (x : Sw × List Obs), List.Sublist x.2 (untimedCalls s (logicalOf s.invert l v) s.now) →
+      x.2.filter (fun o => match o with | .monitor _ => true | _ => false) = [] := by
+    intro x hx
+    apply List.filter_eq_nil_iff.mpr
+    intro o ho
+    obtain ⟨y, _, e⟩ := List.mem_map.mp (hx.subset ho)
+    subst e; simp
+  split
+  · have sub := callHandlers_sublist P (logicalOf s.invert l v) s.now
+      ((changed s (logicalOf s.invert l v)).reg (logicalOf s.invert l v)) [] (changed s (logicalOf s.invert l v))
+    rw [changed_reg] at sub ⊢
+    rw [h1 _ sub]
+    split <;> simp
+  · split <;> simp
+
+/-- **resync_mirrors_hardware.**  A resync (hardware snapshot) leaves `hw_state` equal to the hardware and the logical state
+its image under NO/NC; if the switch already was in that logical state nothing else changes and nothing is called; otherwise it
+is processed exactly like a logical report of the new state (handlers fire for the differences only). -/
+theorem resync_mirrors_hardware (P : Prog) (s : Sw) (hw : Bool) (r : Sw × List Obs) (h : step P s (.resync hw) = some r) :
+    r.1.hw = hw ∧ r.1.state = (hw != s.invert) ∧
+    ((hw != s.invert) = s.state → r = ({ s with hw := hw }, [])) ∧
+    step P s (.resync hw) = step P { s with hw := hw } (.report true (hw != s.invert)) := by
+  obtain ⟨_, b2, _, b4⟩ := step_core P s (.resync hw) r h
+  refine ⟨b4 hw rfl, by simpa [reported] using b2, ?_, by simp [step, logicalOf]⟩
+  intro e
+  simp only [step] at h
+  injection h with h; subst h
+  exact reportL_dup P { s with hw := hw } _ e
+
+/-- **poll_in_sync_is_noop.**  `verify_switches` / `update_switches_from_hw` while MPF agrees with the hardware changes
+nothing and calls nothing — so such polls can be dropped from any timeline (the theorems below exclude polls). -/
+theorem poll_in_sync_is_noop (P : Prog) (s : Sw) (hw : Bool) (h : (hw != s.invert) = s.state) :
+    step P s (.poll hw) = some (s, []) := by
+  simp only [step, h]
+
+/-- **poll_silent_change_witness.**  A poll that finds the hardware in the other state overwrites `state` silently: no handler
+is called, the time of the last change and the pending deadlines stay — a hold-time handler for the *old* state still fires
+although the switch is (for MPF) no longer in that state.  (`update_switches_from_hw` is documented to work silently; polls
+are therefore excluded from `timed_only_when_held`.) -/
+theorem poll_silent_change_witness :
+    (run (fun _ => []) {} [.add true 2 7, .report true true, .to 1, .poll false, .to 2, .wake]).map
+      (fun r => (r.2, r.1.state)) = some ([.call 7 true 2 2], false) := by decide
+
+/-- **wake_is_min_deadline.**  In every state reachable from a fresh switch (whatever the callbacks do), the single
+scheduled wake-up is exactly the minimum of the pending deadlines (none iff none is pending) and it is not overdue; hence
+every pending deadline `k` satisfies `now ≤ wake ≤ k`: no deadline can be slept through. -/
+theorem wake_is_min_deadline (P : Prog) (invert state hw : Bool) (ops : List Op) (r : Sw × List Obs) (hp : NoPoll ops)
+    (h : run P { invert := invert, state := state, hw := hw } ops = some r) :
     r.1.wake = minKey r.1.timed ∧
     ∀ kv ∈ r.1.timed, ∃ w, r.1.wake = some w ∧ r.1.now ≤ w ∧ w ≤ kv.1 := by
-  have i := run_inv ops _ r (init_inv invert state hw) h
+  have i := run_inv P ops _ r (init_inv invert state hw) hp h
   refine ⟨i.wake_min, ?_⟩
   intro kv hkv
   cases hm : minKey r.1.timed with
@@ -95,14 +183,16 @@ theorem wake_is_min_deadline (invert state hw : Bool) (ops : List Op) (r : Sw ×
     exact ⟨w, hw', i.wake_ge w hw', (minKey_spec hm).2 kv.1 (List.mem_map.mpr ⟨kv, hkv, rfl⟩)⟩
 
 /-- **timed_only_when_held** (the "only if" half of `timed_iff_held`, with the exact instant).  In every reachable
-state, every handler call made by a wake-up is for a handler with hold time `ms ≠ 0` registered for the *current* state,
-and happens at exactly `last change + ms`: the switch went into that state `ms` ago and has not changed since. -/
-theorem timed_only_when_held (invert state hw : Bool) (ops : List Op) (s : Sw) (tr : List Obs) (r : Sw × List Obs)
-    (h : run { invert := invert, state := state, hw := hw } ops = some (s, tr)) (hs : step s .wake = some r) :
-    ∀ cb st ms t, Obs.call cb st ms t ∈ r.2 →
+state, every handler call made by a wake-up — including the calls of handlers that a callback of this very wake-up
+registered or left in place — is for a handler with hold time `ms ≠ 0` registered for the *current* state, and happens at
+exactly `last change + ms`: the switch went into that state `ms` ago and has not changed since. -/
+theorem timed_only_when_held (P : Prog) (invert state hw : Bool) (ops : List Op) (s : Sw) (tr : List Obs) (r : Sw × List Obs)
+    (hp : NoPoll ops) (h : run P { invert := invert, state := state, hw := hw } ops = some (s, tr))
+    (hs : step P s .wake = some r) :
+    ∀ o ∈ r.2, ∃ cb st ms t, o = Obs.call cb st ms t ∧
       t = s.now ∧ st = s.state ∧ ms ≠ 0 ∧ ∃ lc, s.lastChange = some lc ∧ t = lc + ms := by
-  have i := run_inv ops _ (s, tr) (init_inv invert state hw) h
-  intro cb st ms t hc
+  have i := run_inv P ops _ (s, tr) (init_inv invert state hw) hp h
+  intro o ho
   simp only [step] at hs
   cases hw' : s.wake with
   | none => simp [hw'] at hs
@@ -111,68 +201,52 @@ theorem timed_only_when_held (invert state hw : Bool) (ops : List Op) (s : Sw) (
     split at hs
     · rename_i hle
       injection hs with hs; subst hs
-      obtain ⟨kv, h1, h2, e, h3, h4⟩ := (processTimed_res s.now s.timed).2 _ hc
-      injection h4 with d1 d2 d3 d4
-      obtain ⟨lc, e1, e2, e3, e4⟩ := i.entries kv h1 e h3
+      have i0 : InvE { s with wake := none } := ⟨i.entries, i.lc_le⟩
+      obtain ⟨_, _, _, a4⟩ := procKeys_spec P s.now (s.timed.map (·.1)) { s with wake := none } i0 rfl
+      obtain ⟨e, d1, d2, d3, lc, k, d4, d5, d6, d7⟩ := a4 o ho
       have hm : minKey s.timed = some w := by rw [← i.wake_min, hw']
-      have := (minKey_spec hm).2 kv.1 (List.mem_map.mpr ⟨kv, h1, rfl⟩)
+      have := (minKey_spec hm).2 k d6
       have hge : s.now ≤ w := i.wake_ge w hw'
-      subst d1; subst d2; subst d3; subst d4
-      exact ⟨rfl, e3, e4, lc, e1, by omega⟩
+      exact ⟨e.cb, e.st, e.ms, s.now, d1, rfl, d2, d3, lc, d4, by omega⟩
     · simp at hs
 
 /-- **removed_never_fires.**  After `remove st ms cb` the handler is neither registered nor pending (`Absent`), and along
-every continuation that does not add it again it stays absent and is never called — whatever reports, wake-ups, other
-registrations and removals happen. -/
-theorem removed_never_fires (s : Sw) (st : Bool) (ms cb : Nat) (r0 : Sw × List Obs)
-    (h0 : step s (.remove st ms cb) = some r0) (ops : List Op) (hops : ∀ op ∈ ops, op ≠ .add st ms cb)
-    (r : Sw × List Obs) (h : run r0.1 ops = some r) :
+every continuation in which nobody registers it again (no `add` op, no callback that registers it) it stays absent and is
+never called — whatever reports, wake-ups, other registrations and removals, by ops or by callbacks, happen. -/
+theorem removed_never_fires (P : Prog) (s : Sw) (st : Bool) (ms cb : Nat) (r0 : Sw × List Obs) (hP : NoAdd P st ms cb)
+    (h0 : step P s (.remove st ms cb) = some r0) (ops : List Op) (hops : ∀ op ∈ ops, op ≠ .add st ms cb)
+    (r : Sw × List Obs) (h : run P r0.1 ops = some r) :
     Absent r0.1 st ms cb ∧ Absent r.1 st ms cb ∧ ∀ t, Obs.call cb st ms t ∉ r.2 := by
   have a0 : Absent r0.1 st ms cb := by
     simp only [step] at h0
     injection h0 with h0; subst h0
-    obtain ⟨_, _, _, _, _, f6, _, f8, _⟩ := setReg_fields s st ((s.reg st).filter (fun r => !(r.ms == ms && r.cb == cb)))
-    refine ⟨?_, ?_⟩
-    · show _ ∉ (s.setReg st _).reg st
-      rw [f8]
-      intro hm
-      have := (List.mem_filter.mp hm).2
-      simp at this
-    · intro kv hkv he
-      obtain ⟨kv0, _, rfl⟩ := List.mem_map.mp hkv
-      have := (List.mem_filter.mp he).2
-      simp [isMatch] at this
-  refine ⟨a0, ?_⟩
-  have key : ∀ (ops : List Op) (s1 : Sw) (r : Sw × List Obs), Absent s1 st ms cb → (∀ op ∈ ops, op ≠ .add st ms cb) →
-      run s1 ops = some r → Absent r.1 st ms cb ∧ ∀ t, Obs.call cb st ms t ∉ r.2 := by
-    intro ops
-    induction ops with
-    | nil => intro s1 r a _ h; simp [run] at h; subst h; exact ⟨a, by simp⟩
-    | cons op ops ih =>
-      intro s1 r a hops h
-      obtain ⟨r1, r2, h1, h2, rfl⟩ := run_cons h
-      obtain ⟨b1, b2⟩ := step_absent s1 op r1 st ms cb a (hops op (by simp)) h1
-      obtain ⟨c1, c2⟩ := ih r1.1 r2 b1 (fun o ho => hops o (by simp [ho])) h2
-      refine ⟨c1, ?_⟩
-      intro t ht
-      rcases List.mem_append.mp ht with d | d
-      · exact b2 t d
-      · exact c2 t d
-  exact key ops r0.1 r a0 hops h
+    exact removeH_makes_absent s st ms cb
+  exact ⟨a0, absent_run P st ms cb hP ops r0.1 r a0 hops h⟩
+
+/-- **removed_in_callback_never_fires.**  The removal may happen *inside* a dispatch: if, during one step (the walk of a
+change or a wake-up processing its expired buckets), a callback `c` whose actions contain `remove st ms cb` is called, then
+handler `(st, ms, cb)` is not called in the rest of that very step — not later in the same walk, not later in the same
+deadline bucket, not in a later bucket — and (as in `removed_never_fires`) never afterwards until somebody registers it again. -/
+theorem removed_in_callback_never_fires (P : Prog) (s : Sw) (op : Op) (r1 : Sw × List Obs) (st : Bool) (ms cb : Nat)
+    (hP : NoAdd P st ms cb) (pre post : List Obs) (c : Nat) (st' : Bool) (ms' t : Nat)
+    (h1 : step P s op = some r1) (hsplit : r1.2 = pre ++ Obs.call c st' ms' t :: post) (hrm : Act.remove st ms cb ∈ P c)
+    (ops : List Op) (hops : ∀ op ∈ ops, op ≠ .add st ms cb) (r : Sw × List Obs) (h : run P r1.1 ops = some r) :
+    (∀ t', Obs.call cb st ms t' ∉ post) ∧ Absent r.1 st ms cb ∧ ∀ t', Obs.call cb st ms t' ∉ r.2 := by
+  obtain ⟨a1, a2⟩ := step_after P s op r1 st ms cb hP pre post c st' ms' t h1 hsplit hrm
+  exact ⟨a2, absent_run P st ms cb hP ops r1.1 r a1 hops h⟩
 
 /-- **late_add_does_not_fire / catch-up at the original deadline** (the repaired D1): a timed handler added while the
-switch is already in its state gets the *original* deadline `last change + ms` if that is still ahead, and nothing is
-scheduled for it if that instant has been reached. -/
-theorem add_catches_up_only_before_deadline (s : Sw) (st : Bool) (ms cb lc : Nat) (r : Sw × List Obs)
-    (hl : s.lastChange = some lc) (h : step s (.add st ms cb) = some r) :
+switch is already in its state — by an op or by a callback — gets the *original* deadline `last change + ms` if that is
+still ahead, and nothing is scheduled for it if that instant has been reached. -/
+theorem add_catches_up_only_before_deadline (s : Sw) (st : Bool) (ms cb lc : Nat) (hl : s.lastChange = some lc) :
     (ms ≠ 0 ∧ s.now < lc + ms ∧ st = s.state →
-      ∃ kv ∈ r.1.timed, kv.1 = lc + ms ∧ (⟨cb, st, ms⟩ : TEntry) ∈ kv.2) ∧
-    (¬ (ms ≠ 0 ∧ s.now < lc + ms ∧ st = s.state) → r.1.timed = s.timed ∧ r.1.wake = s.wake) := by
-  simp only [step, hl] at h
+      ∃ kv ∈ (addH s st ms cb).timed, kv.1 = lc + ms ∧ (⟨cb, st, ms⟩ : TEntry) ∈ kv.2) ∧
+    (¬ (ms ≠ 0 ∧ s.now < lc + ms ∧ st = s.state) → (addH s st ms cb).timed = s.timed ∧ (addH s st ms cb).wake = s.wake) := by
   obtain ⟨_, _, _, _, _, f6, f7, _, _⟩ := setReg_fields s st (s.reg st ++ [⟨cb, ms⟩])
-  split at h
+  unfold addH
+  simp only [hl]
+  split
   · rename_i c
-    injection h with h; subst h
     refine ⟨fun _ => ?_, fun n => absurd c n⟩
     simp only [addTimed]
     generalize (s.setReg st (s.reg st ++ [⟨cb, ms⟩])).timed = l
@@ -186,22 +260,49 @@ theorem add_catches_up_only_before_deadline (s : Sw) (st : Bool) (ms cb lc : Nat
       · obtain ⟨kv, a, b, d⟩ := ih
         exact ⟨kv, by simp [a], b, d⟩
   · rename_i c
-    injection h with h; subst h
     exact ⟨fun y => absurd y c, fun _ => ⟨f6, f7⟩⟩
 
 /-! ## the statements are not vacuous (kernel evaluation on concrete timelines) -/
 
 /-- NC switch, raw reports, duplicate, handler added inside the interval (fires at the original deadline), at the
 deadline (does not), duplicate registration removed once (neither copy fires) -/
-example : (run { invert := true, state := false, hw := true }
+example : (run (fun _ => []) { invert := true, state := false, hw := true }
     [.add true 3 1, .report false false, .to 1, .add true 3 2, .add true 2 3, .add true 2 3, .remove true 2 3,
      .report true true, .to 2, .wake, .to 3, .add true 3 4, .wake, .query true 3, .report false true, .to 9]).map
       (fun r => (r.2, r.1.state, r.1.hw, r.1.wake))
     = some ([.call 1 true 3 3, .call 2 true 3 3, .answer true], false, true, none) := by decide
 
 /-- time cannot pass the wake-up; a wake-up cannot run early -/
-example : run {} [.add true 2 0, .report true true, .to 3] = none ∧
-    run {} [.add true 2 0, .report true true, .to 1, .wake] = none := by decide
+example : run (fun _ => []) {} [.add true 2 0, .report true true, .to 3] = none ∧
+    run (fun _ => []) {} [.add true 2 0, .report true true, .to 1, .wake] = none := by decide
+
+/-- callbacks that mutate the handlers during dispatch: callback 1 removes handler 2 (later in the same walk / the same
+bucket) and registers handler 3 -/
+def progX : Prog := fun c => if c = 1 then [.remove true 0 2, .remove true 2 2, .add true 0 3, .add true 2 3] else []
+
+/-- untimed walk: 2 is skipped (removed by 1 before its turn), 3 (added by 1) is not called in this round but at the next
+change; the timed 3 added in the walk catches up with the deadline of the change -/
+example : (run progX {} [.add true 0 1, .add true 0 2, .add true 0 4, .monitor true, .report true true,
+      .report true false, .report true true]).map (·.2)
+    = some [.call 1 true 0 0, .call 4 true 0 0, .monitor true, .monitor false,
+            .call 1 true 0 0, .call 4 true 0 0, .call 3 true 0 0, .monitor true] := by decide
+
+/-- timed bucket: 1 and 2 share the deadline; 1 runs first and removes 2, which therefore does not fire; the handler 3 that
+1 registers with the same hold time does not fire either (its deadline is not ahead any more) -/
+example : (run progX {} [.add true 2 1, .add true 2 2, .add true 2 4, .report true true, .to 2, .wake]).map
+      (fun r => (r.2, r.1.wake, r.1.timed))
+    = some ([.call 1 true 2 2, .call 4 true 2 2], none, []) := by decide
+
+/-- a callback of an expired bucket registers a handler with a longer hold time: it gets the original deadline and the
+wake-up is re-armed for it (one wake-up, at the minimum of what is pending) -/
+example : (run (fun c => if c = 1 then [.add true 3 5] else []) {}
+      [.add true 1 1, .add true 2 6, .report true true, .to 1, .wake, .to 2, .wake, .to 3, .wake]).map (·.2)
+    = some [.call 1 true 1 1, .call 6 true 2 2, .call 5 true 3 3] := by decide
+
+/-- muted switch: the change is recorded, nothing is called; resync: handlers fire for the difference only -/
+example : (run (fun _ => []) {} [.add true 0 1, .mute 4, .report true true, .unmute 4, .resync true, .resync false,
+      .add false 0 2, .resync false, .resync true]).map (fun r => (r.2, r.1.state, r.1.hw))
+    = some ([.call 1 true 0 0], true, true) := by decide
 
 
 /-! ## Switch device events (`Dev` in `Model/Switch.lean`) -/
